@@ -7,8 +7,13 @@
   * `verify_accepts_only` (C09, C10): `verifyMessage` returns nil in exactly two places — when verification is switched
     off (the operator's flag; during a re-initialisation replay, for the unsigned 0.1.4 patches) and at its end, after
     `ed25519.Verify` succeeded. The node model's `verifyMessage` has exactly these two ways of saying ok.
+  * the operation repository (C13, C15; `Gen/Locks.lean`): `delete_tombstone_first` — `DeleteOperation` writes the tombstone
+    list, THEN the pool; `pool_read_filters_tombstones` — the raw read of the pool drops what is in the tombstone list (so
+    a kill between the two writes leaves the operation retired, not pending again); `put_touches_only_pool` —
+    `PutOperation` writes the pool and nothing else (it cannot remove a tombstone).
 -/
 import Dc4bcVerif.Gen.MoreFacts
+import Dc4bcVerif.Gen.Locks
 
 namespace Dc4bcVerif.Props.SrcFacts
 open Dc4bcVerif.Gen
@@ -16,5 +21,18 @@ open Dc4bcVerif.Gen
 theorem reader_is_stateless : MoreFacts.readerAssigns = [] := by decide
 
 theorem verify_accepts_only : MoreFacts.verifyAccepts = ["s.GetSkipCommKeysVerification()", "end"] := by decide
+
+def callsOf (name : String) : List String :=
+  match Locks.repoMethods.find? (fun e => e.1 == name) with
+  | some e => e.2.2
+  | none => []
+
+theorem delete_tombstone_first : callsOf "DeleteOperation" =
+    ["r.getDeletedOperations", "r.state.Set(r.deleteOperationsCompositeKey)", "r.getOperations", "r.state.Set(r.operationsCompositeKey)"] := by
+  decide
+
+theorem pool_read_filters_tombstones : (callsOf "getOperations").contains "r.getDeletedOperations" = true := by decide
+
+theorem put_touches_only_pool : callsOf "PutOperation" = ["r.getOperations", "r.state.Set(r.operationsCompositeKey)"] := by decide
 
 end Dc4bcVerif.Props.SrcFacts
